@@ -718,8 +718,70 @@ fn witness_rounds(rec: &mut Rec, rng: &mut Rng, sim: &mut Sim) {
     }
 }
 
+/// A client that does not read is owed far more than the socket buffer holds (the connection waits for
+/// writability, the socket is full, so no OUT event comes) and then shuts its socket down WITHOUT closing the
+/// descriptor: the only thing epoll reports is a hang-up (HUP / RDHUP, no ERR, no IN, no OUT). The connection must
+/// be closed and — everything being answered — released; the epoll descriptor must fall silent; others are served.
+pub fn c09_halfclose_while_output_blocked(rec: &mut Rec, rng: &mut Rng, how: Shutdown) {
+    rec.case("halfclose-while-output-blocked");
+    rec.nontrivial();
+    let mut cfg = Cfg::base("C09");
+    cfg.big = true;
+    let mut sim = Sim::new(rec, cfg);
+    let a = sim.connect(rec);
+    let b = sim.connect(rec);
+    sim.poll(rec);
+    sim.poll(rec);
+    sim.send_next(rec, rng, a);
+    while !sim.plans[a].outq.is_empty() {
+        sim.send_next(rec, rng, a);
+    }
+    for _ in 0..6 {
+        sim.poll(rec);
+    }
+    // a response far larger than the socket buffer; `a` never reads
+    while !sim.w.held.is_empty() {
+        let t = sim.w.held[0].tag.clone();
+        let mut body = format!("{}:", t).into_bytes();
+        body.extend(std::iter::repeat(b'.').take(rng.range(600_000, 900_000)));
+        let spec = RespSpec { v11: true, code: 200, ops: vec![BOp::Body(body)] };
+        sim.plans[a].answered.push(t);
+        sim.w.respond(rec, 0, &spec);
+    }
+    for _ in 0..3 {
+        sim.poll(rec);
+    }
+    sim.w.shutdown(rec, a, how);
+    // the other client is served meanwhile
+    sim.send_next(rec, rng, b);
+    while !sim.plans[b].outq.is_empty() {
+        sim.send_next(rec, rng, b);
+    }
+    for _ in 0..8 {
+        sim.poll(rec);
+        if let Some(k) = sim.w.held.iter().position(|h| h.client == Some(b)) {
+            sim.respond(rec, rng, k);
+        }
+    }
+    sim.w.client_read(rec, b);
+    let (resps, _) = split_responses(&sim.w.clients[b].received);
+    if resps.iter().filter(|(c, _)| *c == 200).count() != sim.plans[b].answered.len() || sim.plans[b].answered.is_empty() {
+        rec.oracle_fail("C09", "a second client was not served while the first one's connection is hung up with output blocked", &sim.w.log);
+    }
+    sim.settle(rec, rng);
+    common_checks(rec, &mut sim, "C09");
+    release_check(rec, &mut sim, "C09");
+    if sim.w.server.is_some() && sim.w.backlog.is_empty() && sim.w.ready() {
+        rec.oracle_fail("C09", "the epoll descriptor signals forever after a client shut its socket down while output was blocked", &sim.w.log);
+    }
+    sim.w.teardown();
+}
+
 pub fn c09(rec: &mut Rec, rng: &mut Rng, thorough: bool) {
     regress_f2(rec, rng);
+    for how in [Shutdown::Both, Shutdown::Write, Shutdown::Read] {
+        c09_halfclose_while_output_blocked(rec, rng, how);
+    }
     let n = if thorough { 3000 } else { 140 };
     for _ in 0..n {
         let mut cfg = Cfg::base("C09");
